@@ -140,6 +140,7 @@ pub fn parse_pipeline(def: &ast::PipelineDefinition, context: &mut Context) -> T
             }
             "DefaultBindGroup" => {
                 let value = extract_uint32(&property.value, context)?;
+                super::globals::check_bind_group_index(value, property.property.location)?;
                 pipeline.default_bind_group_index = value;
             }
             "CullMode" => {
